@@ -72,7 +72,7 @@ def check_c03(tier, replay=None):
     rep.add_tlc('StoneSemMC/all-scenarios', agg, {'OrderMode': 'one', 'scenarios': checks_sem.SCENARIOS})
     rep.add_judged(agg)
     from checks_sem import lit_stage
-    lit_stage(rep, 'C03', ('exlit', 'attr', 'annot') if tier == 'quick' else ('exlit', 'attr', 'docref', 'annot'))
+    lit_stage(rep, 'C03', ('exlit', 'attr', 'annot', 'anndef', 'badtype') if tier == 'quick' else ('exlit', 'attr', 'docref', 'annot', 'anndef', 'badtype'))
     rep.exhaustive = True
     rep.coverage_extra['rule'] = ('every sequence of <= %d physical lines over a 33-letter line alphabet (indent 0/2/4/8 x plain/open/'
                                   'close/open-close/nested-open/trailing-comment/whitespace-only/comment + blank), each tokenised by the real Lexer (skeleton and '
